@@ -335,6 +335,58 @@ func runC09(c *Ctx) {
 			c.Check(noResend, "C09.A6-pubsub-path", key+" › no re-republication", cs.In.Pos(), "announcements from pubsub are not republished again", "pubsub announcements can be republished (loop)")
 		}
 	}
+	// the receiver knows its own host ID whenever it has a host: the ID the self-republication test compares with is
+	// recorded under no other condition than "a host was given" (recorded only when, say, the receiver creates the
+	// topic itself, a receiver joined to an existing topic delivers its own republications)
+	{
+		nRec := 0
+		for _, f := range c.Funcs(pkg) {
+			instrs(f.SSA, func(in ssa.Instruction) {
+				st, ok := in.(*ssa.Store)
+				if !ok {
+					return
+				}
+				a := c.E(st.Addr)
+				if a.Op != "field" || canonName(a.Name) != "hostID" {
+					return
+				}
+				v := c.E(st.Val)
+				m, isID := Match(AnyCall("ID", Bind("h")), v)
+				if !isID || !strings.Contains(v.Name, "host.Host") {
+					return
+				}
+				nRec++
+				extra := ""
+				for _, fct := range c.FactsAt(st.Block()) {
+					cx := strip(fct.Cond)
+					if _, isNilTest := Match(EqNil(Is(m["h"])), cx); isNilTest && !fct.Val {
+						continue // host != nil
+					}
+					if b, isErr := Match(EqNil(Bind("e")), cx); isErr && fct.Val && b["e"].V != nil && isErrorType(b["e"].V.Type()) {
+						continue // an earlier step succeeded
+					}
+					if fct.If != nil && fct.If.Parent() == st.Parent() && ReachableFromSucc(fct.If.Block(), fct.If.Block()) && !ReachableFrom(st.Block())[fct.If.Block()] {
+						continue // the exit condition of a loop that is over by now
+					}
+					foreign := fct.If == nil || fct.If.Parent() != st.Parent()
+					cx.Find(func(y *X) bool {
+						if in, ok := y.V.(ssa.Instruction); ok && in.Parent() != nil && in.Parent() != st.Parent() {
+							foreign = true
+						}
+						return false
+					})
+					if foreign {
+						continue // what a helper's success implies about the helper's own tests
+					}
+					extra = abbreviate(factString(fct))
+				}
+				c.Check(extra == "", "C09.A6-pubsub-path", c.short(topFunc(st.Parent()).String())+" › own host ID recorded whenever there is a host", st.Pos(), "the host ID is recorded under no condition other than host != nil", "the receiver's own host ID is recorded only when "+extra+": otherwise the self-republication test compares with an empty ID and the receiver delivers its own republications")
+			})
+		}
+		if nRec == 0 {
+			c.Unk("C09.A6-pubsub-path", "announce › own host ID recorded", token.NoPos, "no store of the host's ID into a hostID field found")
+		}
+	}
 	c.Floor("C09.A6-pubsub-path", 3)
 
 	// ---- A7 capacity ----------------------------------------------------------------------------------------------
@@ -690,3 +742,6 @@ func refusedLeavesNoTrace(c *Ctx, rule string) {
 		c.Unk(rule, "announce › duplicate-filter update", token.NoPos, "not found")
 	}
 }
+
+// canonName: field names are compared in their reference spelling (renames are undone by the canonicaliser).
+func canonName(n string) string { return n }
